@@ -21,7 +21,7 @@ import tempfile
 import time
 import traceback
 
-from harness import core
+from harness import core, ambient
 from harness.core import Violation, Discard, HarnessError, Tally, enc, dec, digest, eprint
 
 MODES_ENV = {
@@ -78,7 +78,7 @@ def _run_one(sc, case, tally, fail):
     try:
         if _CASELOG:
             before = dict(tally.classes)
-        sc.execute(case, tally)
+        ambient.execute(sc, case, tally)
         if _CASELOG:
             _caselog(case, tally, before, "ok")
     except Discard as d:
@@ -125,6 +125,9 @@ def child_main(a):
                     out["n_planned"] += 1
                     try:
                         _run_one(sc, case, tally, fail)
+                        # every seventh enumerated case is executed a second time under an ambient process state
+                        if sc.ambient and i % 7 == 3 and isinstance(case, dict):
+                            _run_one(sc, ambient.tag(case, ambient.for_index(sc.ambient, i // 7)), tally, fail)
                     except Violation:
                         break
                     except Exception:
@@ -225,9 +228,14 @@ def _run_hypothesis(sc, a, tally, fail, shard_i, shard_n, out):
     out["n_planned"] += n
     hseed = core.seed_for(a.seed, mod_name(a), sc.name, a.mode if a.seed_per_mode else "", shard_i)
 
+    strat = sc.strategy()
+    if sc.ambient:
+        from hypothesis import strategies as st
+        strat = st.tuples(strat, ambient.strategy(sc.ambient)).map(lambda pair: ambient.tag(pair[0], pair[1]))
+
     @hypothesis.seed(hseed)
     @_hyp_settings(sc, a, n)
-    @given(sc.strategy())
+    @given(strat)
     def test(case):
         _run_one(sc, case, tally, fail)
 
@@ -578,13 +586,13 @@ def replay_main(a):
         for c in seq[:-1]:          # the history: executed for its side effects on process state
             tally.begin(c)
             try:
-                sc.execute(c, tally)
+                ambient.execute(sc, c, tally)
             except (Discard, Violation):
                 pass
         case = seq[-1]
     tally.begin(case)
     try:
-        sc.execute(case, tally)
+        ambient.execute(sc, case, tally)
     except Discard as d:
         print(f"replay: case is outside the property's domain on this tree ({d.reason})")
         return 0
